@@ -94,16 +94,20 @@ Theorem c19_suffix_avoids_sourcesb_sound : forall env sub idx,
   suffix_avoids_sourcesb env sub idx = true -> suffix_avoids_sources env sub idx.
 Proof. exact suffix_avoids_sourcesb_sound. Qed.
 
+(* NAMING: the "values" statements below are statements about the Herbrand TERMS of the classical bits (hence
+   `_bit_terms`).  "Reconstructed values unaffected" additionally needs M1 (equal terms => equal laws), the masking of
+   the placeholder bit (c19_placeholder_bit_masked below, from C11) and the reconstruction formula (C06); these are
+   cited, the last two are not composed into one statement. *)
 (* ------------------------------------------------------------------------------------------------
    (5) values.  The three passes leave the Herbrand term of EVERY classical bit unchanged (C12, c12_pipeline_semantics);
    the repair step changes no classical bit that the appended suffix does not write.  For the dummy suffix the only
    written bit is the single bit of "observable_measurements", which every observable of the group masks out
    (bitmask 0: Properties/C11.v, c11_dummy) — that last step is argued, not part of this statement. *)
-Theorem c19_values_unaffected : forall nq nc c, wf nq nc c = true ->
+Theorem c19_passes_bit_terms : forall nq nc c, wf nq nc c = true ->
   hc (denote nq nc (three_passes nq c)) = hc (denote nq nc c).
 Proof. exact passes_values. Qed.
 
-Theorem c19_repair_values : forall nq nc d sfx k, wf nq nc d = true ->
+Theorem c19_repair_bit_terms : forall nq nc d sfx k, wf nq nc d = true ->
   (forall y, In y sfx -> ~ In k (ics y)) ->
   nth k (hc (denote nq nc (remove_final_resets nq d ++ sfx))) None = nth k (hc (denote nq nc (d ++ sfx))) None.
 Proof. exact repair_values. Qed.
@@ -121,10 +125,10 @@ Proof. exact finish_postconditions. Qed.
 (* [reference] = the same subexperiment with NO reset removed (register, decomposition, measurement suffix).  Every
    classical bit of the returned subexperiment carries the Herbrand term it has in the reference - all of them when the
    group measures something; all but the placeholder bit (bit [mnc qc], the single bit of "observable_measurements")
-   for an identity group.  Composite of c19_values_unaffected (three passes) and c19_repair_values (repair step).
+   for an identity group.  Composite of c19_passes_bit_terms (three passes) and c19_repair_bit_terms (repair step).
    What is NOT proved here: that equal terms give equal laws (M1), that the placeholder bit is masked out of every
    observable (C11, c11_dummy) and that the reconstruction is a function of these bit laws (C06). *)
-Theorem c19_finish_values : forall gh gsx (env : benv) qc ids ms g idx out r ncl,
+Theorem c19_finish_bit_terms : forall gh gsx (env : benv) qc ids ms g idx out r ncl,
   valid env (mdata qc) ids ms ->
   finish gh gsx env qc ids ms g idx = Ok out -> reference gh gsx env qc ids ms g idx = Ok r ->
   wf (mnq qc) ncl (mdata r) = true ->
@@ -135,7 +139,7 @@ Proof. exact finish_values. Qed.
 (* sub_ok: ResetPasses.wf_instr on every instruction (indices in range, Reset/Measure arities) plus the arities
    QuantumCircuit.append enforces for SingleQubitQPDGate / TwoQubitQPDGate / QPDMeasure.  Under it the reference circuit
    EXISTS whenever the subexperiment does and IS well-formed (on the subexperiment's own classical bits, mnc r): the
-   wf hypothesis of c19_finish_values is discharged. *)
+   wf hypothesis of c19_finish_bit_terms is discharged. *)
 Theorem c19_reference_total : forall gh gsx (env : benv) qc ids ms g idx out,
   valid env (mdata qc) ids ms -> sub_ok (mnq qc) (mnc qc) (mdata qc) = true ->
   finish gh gsx env qc ids ms g idx = Ok out ->
@@ -146,7 +150,7 @@ Proof. exact reference_total. Qed.
    qubits, user resets, any observable group, any map choice): every returned subexperiment has no Reset first, last or
    doubled on any wire, and every classical bit except the placeholder bit of an identity group carries the Herbrand term
    it has in the un-optimised subexperiment.  No no_reuse, no reset-free-basis hypothesis. *)
-Theorem c19_second_clause : forall gh gsx (env : benv) qc ids ms g idx out,
+Theorem c19_second_clause_bit_terms : forall gh gsx (env : benv) qc ids ms g idx out,
   valid env (mdata qc) ids ms -> sub_ok (mnq qc) (mnc qc) (mdata qc) = true ->
   finish gh gsx env qc ids ms g idx = Ok out ->
   (no_leading_reset out /\ no_trailing_reset out /\ no_double_reset out) /\
@@ -222,6 +226,30 @@ Proof.
   vm_compute; reflexivity.
 Qed.
 
+(* RIDER to the first clause: c19_no_reset needs suffix_avoids_sources, and the hypothesis is NECESSARY.  Same
+   subcircuit as exF2, but the group measures Z on qubit 0, the Move source (possible only with hand-placed Moves:
+   after cut_wires/expand_observables a source carries the identity): no_reuse holds, suffix_avoids_sources fails, and
+   one Reset stays between the QPD measurement and the observable measurement of the source - it has to (the
+   measurement must read |0>; removing it changes the values, cf. seeded change C19-1).  The implementation does the same
+   (`h 0; Move(0,1); s 1`, observable `IZ`: every subexperiment of the source's partition keeps one reset).  The first
+   clause is therefore proved for observables that are the identity on every Move source; an observable on a source
+   counts as a use of that qubit. *)
+Example c19_ex_obs_on_source :
+  no_reuseb exEnv 2 (mdata exF2) = true /\ suffix_avoids_sourcesb exEnv (mdata exF2) [0] = false /\
+  finish 0 1 exEnv exF2 [[2]] [2%Z] [3; 0] [0] =
+    Ok [G 0 [0]; G 10 [0; 1]; G 0 [0]; mkI Measure [0] [1]; mkI Reset [0] []; G 11 [1]; mkI Measure [0] [0]] /\
+  (forall out, finish 0 1 exEnv exF2 [[2]] [2%Z] [3; 0] [0] = Ok out -> count_resets out = 1).
+Proof.
+  split; [vm_compute; reflexivity|]. split; [vm_compute; reflexivity|]. split; [vm_compute; reflexivity|].
+  intros out H. vm_compute in H. injection H as <-. reflexivity.
+Qed.
+
+(* reset_pattern_ok holds non-trivially (resets at both ends of wire 0, a wire carrying only a reset) and none survives *)
+Example c19_ex_pattern :
+  let c := [mkI Reset [0] []; G 0 [0]; mkI Reset [0] []; mkI Reset [1] []] in
+  resets_wf 2 c = true /\ Wb (wflags 0 c) = true /\ Wb (wflags 1 c) = true /\ three_passes 2 c = [G 0 [0]].
+Proof. repeat split; vm_compute; reflexivity. Qed.
+
 (* the post-conditions say something: an input on which each pass has work to do *)
 Example c19_ex_passes :
   let c := [mkI Reset [0] []; G 0 [0]; mkI Reset [0] []; mkI Reset [0] []; G 0 [0]; mkI Reset [0] []; mkI Reset [1] []] in
@@ -239,19 +267,20 @@ Print Assumptions c19_no_reset.
 Print Assumptions c19_pre_pass_pattern.
 Print Assumptions c19_no_reuseb_sound.
 Print Assumptions c19_suffix_avoids_sourcesb_sound.
-Print Assumptions c19_values_unaffected.
-Print Assumptions c19_repair_values.
+Print Assumptions c19_passes_bit_terms.
+Print Assumptions c19_repair_bit_terms.
 Print Assumptions c19_finish_postconditions.
-Print Assumptions c19_finish_values.
+Print Assumptions c19_finish_bit_terms.
 Print Assumptions c19_reference_total.
-Print Assumptions c19_second_clause.
+Print Assumptions c19_second_clause_bit_terms.
 
 (* ------------------------------------------------------------------------------------------------
    (4) circuits produced by cut_wires (Model/CutWires.v, the C03 model) satisfy no_reuse: the Move placeholder of a
    marker reads from the current position of the cut qubit, which is never used afterwards, and writes to the next
    position, which was never used before.  Stated on the UNSEPARATED circuit (TwoQubitQPDGate placeholders), which is
-   what generate_cutting_experiments accepts directly; together with c19_no_reset this covers
-   cut_wires -> generate_cutting_experiments(circuit, observables).  The separated workflow is section (4b) below. *)
+   what generate_cutting_experiments accepts directly.  This gives only the no_reuse hypothesis of c19_no_reset; the other
+   one, suffix_avoids_sources for the expanded observables, is discharged for the unseparated call in section (4c)
+   (c19_unseparated_no_reset) and for the separated workflow in section (4b). *)
 From CKT Require Import Model.Observables Model.CutWires Proofs.ResetFreeCut.
 
 Theorem c19_cut_wires_no_reuse : forall (env : benv) nq c b bid lbl,
@@ -402,6 +431,115 @@ Print Assumptions c19_cut_wires_no_reuse_gen.
 Print Assumptions c19_separated_no_reuse.
 Print Assumptions c19_separated_suffix.
 Print Assumptions c19_separated_no_reset.
+
+(* ------------------------------------------------------------------------------------------------
+   (4c) the UNSEPARATED workflow  cut_wires -> expand_observables -> generate_cutting_experiments(circuit, PauliList):
+   the measured qubits of every commuting group of the expanded observables avoid every Move source (a source sits
+   strictly inside a qubit's block, expanded observables carry the identity there), hence - with c19_cut_wires_no_reuse_gen
+   and c19_no_reset - no Reset in any subexperiment.  Hypotheses: input well-formedness (wf_circ, input_ok, letter
+   count), the grouping oracle's contract (C11), success of expand/collection/finish. *)
+From CKT Require Import Proofs.ResetFreeUnsep.
+
+Theorem c19_unseparated_suffix : forall (env : benv) nq c b bid lbl ps eps o cogs lk cog,
+  wf_circ nq c = true -> input_ok env c = true -> basis_class env b = 1 ->
+  (forall p, In p ps -> length (plets p) = nq) ->
+  expand nq (seq 0 nq) (new_qubits nq c) ps = Ok eps ->
+  grouping_contract eps o = true -> collection eps o = Ok (cogs, lk) -> In cog cogs ->
+  suffix_avoids_sources env (cut_wires_gen (Qpd2 b bid lbl) nq c) (cg_indices cog).
+Proof. exact unseparated_suffix. Qed.
+
+Theorem c19_unseparated_no_reset : forall (env : benv) gh gsx nq c b bid lbl ps eps o cogs lk cog qc ids ms out,
+  wf_circ nq c = true -> input_ok env c = true -> basis_class env b = 1 ->
+  (forall p, In p ps -> length (plets p) = nq) ->
+  expand nq (seq 0 nq) (new_qubits nq c) ps = Ok eps ->
+  grouping_contract eps o = true -> collection eps o = Ok (cogs, lk) -> In cog cogs ->
+  mnq qc = nq + CutWires.count_markers c -> mdata qc = cut_wires_gen (Qpd2 b bid lbl) nq c ->
+  valid env (mdata qc) ids ms ->
+  finish gh gsx env qc ids ms (plets (cg_general cog)) (cg_indices cog) = Ok out ->
+  count_resets out = 0.
+Proof. exact unseparated_no_reset. Qed.
+
+(* partition_problem applied to ANY circuit that already satisfies no_reuse and holds only two-qubit placeholders - the
+   cut_wires output, or hand-placed Moves turned into TwoQubitQPDGates by cut_gates: every subcircuit satisfies no_reuse,
+   whatever the labelling.  The gates partition_problem cuts ITSELF must have reset-free bases, so a plain `Move`
+   instruction that crosses a partition is NOT covered (c19_partitioned_no_reuse_open: the same with class 1 allowed for
+   a crossing Move whose source/destination satisfy the wire condition). *)
+Theorem c19_partitioned_no_reuse : forall basis_of relabel dx, dx_contract dx ->
+  forall (env : benv) n C, no_uuid C -> no_reuse env n C -> no_halves C = true ->
+  (forall y b l, In y C -> is_qpd2 y = false -> basis_of (iop y) = Some (b, l) -> basis_class env b = 0) ->
+  forall labels obs ncl ncr subs bases so,
+  partition_problem basis_of relabel dx n ncl ncr C labels obs = Ok (subs, bases, so) ->
+  forall l nql body, In (l, nql, body) subs -> no_reuse env nql body.
+Proof. exact partitioned_no_reuse. Qed.
+
+(* the placeholder bit is ignored by the decoding (composition with C11's cog_post_init / decode): when the group
+   measures nothing every member's mask is 0 and the decoded factor does not depend on the outcome word *)
+Theorem c19_placeholder_bit_masked : forall g members masks,
+  cog_post_init g members = Ok ([], masks) ->
+  forall j m, nth_error members j = Some m ->
+    nth j masks 0%N = 0%N /\ forall b b', decode (nth j masks 0%N) b = decode (nth j masks 0%N) b'.
+Proof. exact placeholder_bit_masked. Qed.
+
+(* non-vacuity, unseparated: exSepC, observables Z on original qubit 0 and X on original qubit 1 *)
+Definition exUnsEps := [mkP 0 [0; 3; 0]; mkP 0 [0; 0; 1]].
+Definition exUnsO := mkOracle exUnsEps [exUnsEps].
+Definition exUnsCog := mkCog (mkP 0 [0; 3; 1]) exUnsEps [1; 2] [1%N; 2%N].
+Example c19_ex_unseparated :
+  expand 2 (seq 0 2) (new_qubits 2 exSepC) [mkP 0 [3; 0]; mkP 0 [0; 1]] = Ok exUnsEps /\
+  grouping_contract exUnsEps exUnsO = true /\
+  collection exUnsEps exUnsO = Ok ([exUnsCog], [(mkP 0 [0; 3; 0], [(0, 0)]); (mkP 0 [0; 0; 1], [(0, 1)])]) /\
+  valid exEnv (cut_wires_gen (Qpd2 0 None None) 2 exSepC) [[2]] [2%Z] /\
+  suffix_avoids_sourcesb exEnv (cut_wires_gen (Qpd2 0 None None) 2 exSepC) (cg_indices exUnsCog) = true /\
+  (exists out, finish 0 1 exEnv (mkMC 3 0 [] (cut_wires_gen (Qpd2 0 None None) 2 exSepC)) [[2]] [2%Z]
+                 (plets (cg_general exUnsCog)) (cg_indices exUnsCog) = Ok out /\ count_resets out = 0 /\ length out = 10).
+Proof.
+  split; [vm_compute; reflexivity|]. split; [vm_compute; reflexivity|]. split; [vm_compute; reflexivity|].
+  split; [apply validb_sound; vm_compute; reflexivity|]. split; [vm_compute; reflexivity|].
+  eexists. split; [vm_compute; reflexivity|]. split; reflexivity.
+Qed.
+
+(* non-vacuity with the gate-cut hypothesis ACTIVE: partition_problem cuts the cx (basis 1 of exEnv2, no Reset) because
+   the labels separate its qubits; dx := expand_qpd2 satisfies dx_contract (Properties/C10.v, c10_dx_contract_inhabited) *)
+Definition exBo2 (o : op) : option (nat * qlabel) := match o with Gate 10 => Some (1, Some (5, None)) | _ => None end.
+Example c19_ex_separated_gate_cut :
+  dx_contract expand_qpd2 /\
+  wf_circ 2 exSepC = true /\ input_ok exEnv2 exSepC = true /\ no_uuid exSepC /\ basis_class exEnv2 0 = 1 /\
+  (forall i b' l', In i exSepC -> exBo2 (iop i) = Some (b', l') -> basis_class exEnv2 b' = 0) /\
+  (exists i l', In i exSepC /\ exBo2 (iop i) = Some (1, l')) /\
+  match partition_problem exBo2 exSepRl expand_qpd2 3 0 0 (cut_wires_gen (Qpd2 0 None (Some (7, None))) 2 exSepC)
+          (Some [Some 0; Some 1; Some 1]) (Some [mkP 0 [0; 3; 3]]) with
+  | Ok (subs, bases, _) =>
+      Nat.eqb (length subs) 2 && list_beq Nat.eqb bases [1; 0] &&
+      forallb (fun s => no_reuseb exEnv2 (snd (fst s)) (snd s) && existsb is_qpd (snd s)) subs
+  | _ => false
+  end = true.
+Proof.
+  split; [exact dx_contract_id|].
+  split; [reflexivity|]. split; [reflexivity|]. split.
+  { intros i Hi. repeat (destruct Hi as [<-|Hi]; [reflexivity|]). destruct Hi. }
+  split; [reflexivity|]. split.
+  { intros i b' l' Hi. repeat (destruct Hi as [<-|Hi]; [simpl; intros E; try discriminate; injection E as <- _; reflexivity|]). destruct Hi. }
+  split; [exists (G 10 [0; 1]), (Some (5, None)); split; [simpl; tauto|reflexivity]|].
+  vm_compute. reflexivity.
+Qed.
+
+(* non-vacuity of c19_partitioned_no_reuse on a HAND-PLACED Move: `h 0; Move(0,1); s 1` after cut_gates *)
+Definition exHand : circ := [G 0 [0]; mkI (Qpd2 0 None (Some (7, None))) [0; 1] []; G 6 [1]].
+Example c19_ex_hand_placed :
+  no_uuid exHand /\ no_reuse exEnv 2 exHand /\ no_halves exHand = true /\
+  partition_problem exSepBo exSepRl expand_qpd2 2 0 0 exHand None (Some [mkP 0 [0; 3]]) =
+    Ok ([(0, 1, [G 0 [0]; mkI (Qpd1 0 0 None (Some (7, Some 0))) [0] []]);
+         (1, 1, [mkI (Qpd1 0 1 None (Some (7, Some 0))) [0] []; G 6 [0]])], [0],
+        Some [(0, [mkP 0 [0]]); (1, [mkP 0 [3]])]).
+Proof.
+  split. { intros i Hi. repeat (destruct Hi as [<-|Hi]; [reflexivity|]). destruct Hi. }
+  split; [apply no_reuseb_sound; vm_compute; reflexivity|]. split; [reflexivity|]. vm_compute. reflexivity.
+Qed.
+
+Print Assumptions c19_unseparated_suffix.
+Print Assumptions c19_unseparated_no_reset.
+Print Assumptions c19_partitioned_no_reuse.
+Print Assumptions c19_placeholder_bit_masked.
 
 (* ------------------------------------------------------------------------------------------------
    facts regenerated from the source on every run *)
